@@ -480,6 +480,17 @@ CrcOK(e)     == e.r = CrcUpdate(e.init, e.data)
 CrcHashOK(e) == e.r = Crc32c(e.data)
 RECURSIVE Concat(_, _)
 Concat(parts, i) == IF i > Len(parts) THEN <<>> ELSE parts[i] \o Concat(parts, i + 1)
+(* the streaming interface as a FOLD from an ARBITRARY register value: regs[k] is the register  *)
+(* returned by the k-th update; each step continues from the previous register (0 is a         *)
+(* legitimate register value), and the fold equals one update over the concatenation           *)
+RECURSIVE ConcatTo(_, _, _)
+ConcatTo(parts, i, k) == IF i > k THEN <<>> ELSE parts[i] \o ConcatTo(parts, i + 1, k)
+CrcFoldOK(e) ==
+    /\ Len(e.regs) = Len(e.parts)
+    /\ \A k \in 1..Len(e.parts) :
+          /\ e.regs[k] = CrcUpdate(IF k = 1 THEN e.init ELSE e.regs[k - 1], e.parts[k])
+          /\ e.regs[k] = CrcUpdate(e.init, ConcatTo(e.parts, 1, k))
+    /\ e.fin = Not32(IF Len(e.parts) = 0 THEN e.init ELSE e.regs[Len(e.parts)])
 (* feeding the parts one after the other = one shot over their concatenation *)
 CrcIncOK(e)  == e.r = Crc32c(Concat(e.parts, 1))
 
@@ -615,6 +626,7 @@ EventOK(e) ==
       [] e.op = "crc"           -> CrcOK(e)
       [] e.op = "crc_hash"      -> CrcHashOK(e)
       [] e.op = "crc_inc"       -> CrcIncOK(e)
+      [] e.op = "crc_fold"      -> CrcFoldOK(e)
       [] e.op = "b64enc"        -> B64EncOK(e)
       [] e.op = "b64dec"        -> B64DecOK(e)
       [] e.op = "b64len"        -> B64LenOK(e)
